@@ -496,6 +496,33 @@ func init() {
 			return rc
 		}})
 
+	// and under the per-update file oracle of C05, with backend shards
+	register(&Profile{Name: "shards-dup-owner", Prop: "C05", Weight: 1,
+		Oracles: OracleSet{Property: "C05", FreshEveryRec: true},
+		Build: func(seed uint64, tier string) *RunConfig {
+			r := cfgRng(seed)
+			mn, mx := tierOps(tier, 6, 18)
+			ctl := sampleCtl(r)
+			ctl.BackendShards = pickInt(r, 0, 1, 3, 8, 8)
+			if ctl.DefaultService != "" {
+				ctl.DefaultService = "a/dflt"
+			}
+			rc := &RunConfig{Property: "C05", Profile: "shards-dup-owner", Seed: seed, Ctl: ctl, MapOrder: r.IntN(2) == 0, Lagfree: true,
+				IgnoreAvoid: []string{"no_dup_paths"}, ExtraAvoid: []string{"dup_paths_exclusive_service"}}
+			w := map[string]int{}
+			for k, v := range defaultWeights {
+				w[k] = v
+			}
+			w["class_change"] = 0
+			w["ing_create"], w["ing_delete"], w["ing_update"] = 14, 12, 8
+			rc.World, rc.Ops = GenerateRun(seed, GenOptions{Sparse: true, IngressKeys: []string{"balance-algorithm", "timeout-server", "ssl-redirect", "hsts"},
+				GlobalKeys: []string{"ssl-redirect", "drain-support", "timeout-client"},
+				Hosts:      []string{"app.local", "api.local"}, Paths: []string{"/app", "/app", "/"}, MinOps: mn, MaxOps: mx, QuiesceEvery: pickInt(r, 2, 4), KeysPerRun: 3, W: w, NoForeignClass: true,
+				NoOwnHost: true, NoTLS: r.IntN(4) != 0, NoDefaultBackend: true,
+				IgnoreAvoid: []string{"no_dup_paths"}, ExtraAvoid: []string{"dup_paths_exclusive_service"}, MaxIngresses: 6})
+			return rc
+		}})
+
 	// static variant: no history, so duplicated declarations (creation-time conflict
 	// resolution) can be generated without reaching the recorded owner-change finding
 	register(&Profile{Name: "routing-static", Prop: "C03", Weight: 1,
